@@ -187,6 +187,14 @@ INVALID = ['(' * 80 + 'a', '(' * 70 + 'a' + ')' * 69, 'a == "' + '(' * 90 + '" b
            'a == 0x10', 'a == None', 'a == True', 'a.b', 'a[0]', 'a(1)', 'a == f"x"', "a == 'x'", 'a == r"x"', 'a == b"x"']
 
 
+# characters that generic text tooling treats as blanks or line breaks but that are not filter syntax (the grammar skips
+# blank, tab, CR and LF only), a zero-width mark and NUL: stray at the start, at the end and between tokens
+STRAY = ['\x0b', '\x0c', '\x1c', '\x1d', '\x1e', '\x1f', u'\x85', u'\xa0', u'\u1680', u'\u2000', u'\u2003', u'\u2028', u'\u2029', u'\u202f', u'\u205f',
+         u'\u3000', u'\ufeff', u'\u200b', '\x00', '\x7f']
+for _c in STRAY:
+    INVALID += ['a' + _c, _c + 'a', 'a' + _c + 'and b', _c + 'a == 1' + _c, 'a == "x"' + _c, 'not' + _c + 'a', 'a ' + _c, ' ' + _c + ' a']
+
+
 def run_filter(hs, g, text):
     """-> (outcome, events, flag, stdout-writes)"""
     import gc
@@ -349,6 +357,19 @@ def invalid_task(texts):
             st.fail('invalid-filter-accepted', {'position': 'invalid-filter'}, case, {'filter': text, 'selected': repr(out[1])})
         elif not (out[1] in ('ParseException', 'ParseSyntaxException') and out[2].startswith('pyparsing')):
             st.fail('invalid-filter-not-rejected-with-parse-error', {'exc': out[1]}, case, {'filter': text})
+        # every entry point takes the same decision on the same text
+        from hszinc import grid_filter as gf
+        for name, call in (('Grid.filter(text, limit)', lambda: g.filter(text, 1)), ('filter_function', lambda: gf.filter_function(text)),
+                           ('parse_filter', lambda: gf.parse_filter(text))):
+            try:
+                call()
+                verdict = 'accepted'
+            except BaseException as e:  # noqa
+                verdict = type(e).__name__
+            st.count('executions')
+            if verdict not in ('ParseException', 'ParseSyntaxException'):
+                st.fail('invalid-filter-accepted' if verdict == 'accepted' else 'invalid-filter-not-rejected-with-parse-error',
+                        {'position': 'invalid-filter', 'entry': name, 'exc': verdict}, case, {'filter': text, 'entry_point': name})
         bad = [e for e in ev if not (e[0] in ('compile', 'exec') and e[1] == 'generated-filter')]
         if bad:
             st.fail('payload-caused-audited-effect', {'position': 'invalid-filter', 'event': bad[0][0]}, case, {'events': [list(e) for e in ev][:6]})
